@@ -9,6 +9,7 @@ import (
 	"github.com/go-errors/errors"
 
 	"github.com/arr-ai/frozen"
+	"github.com/arr-ai/hash"
 	"github.com/arr-ai/wbnf/parser"
 
 	"github.com/arr-ai/arrai/pkg/fu"
@@ -90,11 +91,11 @@ func NewDict(allowDupKeys bool, entries ...DictEntryTuple) (Set, error) {
 
 func (d Dict) Hash(seed uintptr) uintptr {
 	// TODO: Optimize.
-	h := seed
+	var h uintptr
 	for e := d.Enumerator(); e.MoveNext(); {
 		h ^= e.Current().Hash(seed)
 	}
-	return h
+	return hash.Uintptr(h, seed) // mixed, see Array.Hash
 }
 
 func (d Dict) Equal(v Value) bool {
